@@ -227,13 +227,15 @@ struct Job {
     strat: &'static str,
     /// the query is exactly the knot vector of the (default index) axis
     knot_query: bool,
+    /// every element of the query is the same in-range value
+    const_query: bool,
 }
 impl Job {
     fn extrapolate(&self) -> bool {
         self.strat.ends_with("+extrapolate")
     }
     fn key(&self) -> String {
-        format!("{}:{}:data{:?}:query{:?}{}", if self.two_d { "Interp2D" } else { "Interp1D" }, self.strat, self.data_shape, self.query_shape, if self.knot_query { "=knots" } else { "" }).replace(' ', "")
+        format!("{}:{}:data{:?}:query{:?}{}", if self.two_d { "Interp2D" } else { "Interp1D" }, self.strat, self.data_shape, self.query_shape, if self.knot_query { "=knots" } else if self.const_query { "=constant" } else { "" }).replace(' ', "")
     }
 }
 
@@ -248,6 +250,9 @@ macro_rules! with_1d {
             for (i, v) in xs.iter_mut().enumerate() {
                 *v = i as f64;
             }
+        }
+        if job.const_query {
+            xs.fill(1.25);
         }
         let nq = job.query_shape.len();
         let mut expected = job.query_shape.clone();
@@ -377,6 +382,10 @@ fn run_2d(job: &Job, out: &mut JobOut) {
             *a = i as f64;
             *b = i as f64;
         }
+    }
+    if job.const_query {
+        xs.fill(1.25);
+        ys.fill(0.75);
     }
     let nq = job.query_shape.len();
     let mut expected = job.query_shape.clone();
@@ -609,18 +618,24 @@ fn body(ctx: &Ctx) -> (Summary, Meta) {
     for strat in ["Linear", "CubicSpline", "Linear+extrapolate", "CubicSpline+extrapolate"] {
         for ds in [vec![4], vec![4, 3], vec![4, 3, 2], vec![4, 2, 3, 2], vec![4, 2, 2], vec![4, 1], vec![4, 1, 3], vec![4, 3, 1]] {
             for qs in &qshapes {
-                jobs.push(Job { two_d: false, data_shape: ds.clone(), query_shape: qs.clone(), strat, knot_query: false });
+                jobs.push(Job { two_d: false, data_shape: ds.clone(), query_shape: qs.clone(), strat, knot_query: false, const_query: false });
+                if qs.iter().product::<usize>() >= 2 {
+                    jobs.push(Job { two_d: false, data_shape: ds.clone(), query_shape: qs.clone(), strat, knot_query: false, const_query: true });
+                }
                 if qs.len() == 1 && qs[0] == ds[0] {
-                    jobs.push(Job { two_d: false, data_shape: ds.clone(), query_shape: qs.clone(), strat, knot_query: true });
+                    jobs.push(Job { two_d: false, data_shape: ds.clone(), query_shape: qs.clone(), strat, knot_query: true, const_query: false });
                 }
             }
         }
     }
     for ds in [vec![3, 4], vec![3, 4, 3], vec![3, 4, 3, 2], vec![4, 3, 2, 2], vec![3, 4, 1], vec![3, 4, 1, 2], vec![4, 4], vec![4, 4, 2]] {
         for qs in &qshapes {
-            jobs.push(Job { two_d: true, data_shape: ds.clone(), query_shape: qs.clone(), strat: "Bilinear", knot_query: false });
+            jobs.push(Job { two_d: true, data_shape: ds.clone(), query_shape: qs.clone(), strat: "Bilinear", knot_query: false, const_query: false });
+            if qs.iter().product::<usize>() >= 2 {
+                jobs.push(Job { two_d: true, data_shape: ds.clone(), query_shape: qs.clone(), strat: "Bilinear", knot_query: false, const_query: true });
+            }
             if qs.len() == 1 && qs[0] == ds[0] && ds[0] == ds[1] {
-                jobs.push(Job { two_d: true, data_shape: ds.clone(), query_shape: qs.clone(), strat: "Bilinear", knot_query: true });
+                jobs.push(Job { two_d: true, data_shape: ds.clone(), query_shape: qs.clone(), strat: "Bilinear", knot_query: true, const_query: false });
             }
         }
     }
@@ -655,7 +670,7 @@ fn body(ctx: &Ctx) -> (Summary, Meta) {
         out
     }));
     let meta = Meta {
-        rule: "every *_into entry point of Interp1D (Linear, CubicSpline) and Interp2D (Bilinear) x data shapes of rank 1..4 x query shapes of rank 0..3 x every static (data dim, query dim) instantiation matching those ranks plus the dynamic ones x buffer shape variants {correct, each axis -1/+1, every swap of two unequal axes (query axes, trailing axes, across), rank+1, two axes merged (same element count), refactored element count}, each buffer being a window into a larger array filled with poison; 2-D: xs/ys of different shapes (each axis +-1, permuted, flattened). Oracle: correct shape => Ok, bitwise equal to the allocating variant, no poison left inside; any other shape => never Ok; poison outside the window intact in every case. Every wrong shape is offered twice in a row to the same interpolator. The batch entry points are also driven with a user-defined strategy that writes its target without looking at the data (the entry point itself has to reject the buffer). The data holds an interval (row of cells) of exact zeros, with queries inside it. Also with the query being exactly the knot vector of the axis (both axes in 2-D). Non-trivial = a wrongly shaped buffer or mismatched xs/ys.".into(),
+        rule: "every *_into entry point of Interp1D (Linear, CubicSpline) and Interp2D (Bilinear) x data shapes of rank 1..4 x query shapes of rank 0..3 x every static (data dim, query dim) instantiation matching those ranks plus the dynamic ones x buffer shape variants {correct, each axis -1/+1, every swap of two unequal axes (query axes, trailing axes, across), rank+1, two axes merged (same element count), refactored element count}, each buffer being a window into a larger array filled with poison; 2-D: xs/ys of different shapes (each axis +-1, permuted, flattened). Oracle: correct shape => Ok, bitwise equal to the allocating variant, no poison left inside; any other shape => never Ok; poison outside the window intact in every case. Every wrong shape is offered twice in a row to the same interpolator. The batch entry points are also driven with a user-defined strategy that writes its target without looking at the data (the entry point itself has to reject the buffer). The data holds an interval (row of cells) of exact zeros, with queries inside it. Also with the query being exactly the knot vector of the axis (both axes in 2-D). Non-trivial = a wrongly shaped buffer or mismatched xs/ys. Every query shape with at least two elements is also run with a constant query (all elements the same in-range value).".into(),
         bounds: format!("{njobs} (interpolator, data shape, query shape) jobs; tier {}", ctx.tier.name()),
         assumptions: vec!["a panic (caught) is the documented rejection; a returned Err would also count as 'not Ok'".into()],
         extra: vec![],
